@@ -164,15 +164,18 @@ Qed.
 
 Lemma dstep_run_leads m d : dstep_wf d -> leads (m_s m) (m_s (fst (dstep_run m d))).
 Proof.
-  intros W. destruct d; simpl.
+  intros W. destruct d; cbn [dstep_run fst m_s].
   - destruct (dstep_wf_write _ _ _ _ W) as [We Wo].
-    eapply leads_trans; [apply (leads_step _ (LInvoke (m_tid m) op)); exact Wo|]. eapply leads_trans; [apply run_thread_leads; exact We|apply settle_leads].
-  - apply (leads_step _ (LTick d)). exact I.
-  - destruct W as [W1 W2]. simpl in W1. eapply leads_trans; [apply run_retry_leads; split; assumption|apply settle_leads].
-  - eapply leads_trans; [apply run_retry_get_leads|apply settle_leads].
-  - destruct W as [W1 W2]. simpl in W1. destruct (s_retry (m_s m)); try apply leads_refl.
-    simpl. eapply leads_trans; [apply run_retry_leads; split; assumption|apply settle_leads].
-  - eapply leads_trans; [apply (leads_step _ (LInvoke (m_tid m) (OCompact r))); exact I|]. eapply leads_trans; [apply run_thread_leads; constructor|apply settle_leads].
+    eapply leads_trans; [apply (leads_step (m_s m) (LInvoke (m_tid m) op)); exact Wo|].
+    eapply leads_trans; [apply run_thread_leads; exact We|apply settle_leads].
+  - apply (leads_step (m_s m) (LTick d)). exact I.
+  - destruct W as [W1 W2]. simpl in W1, W2.
+    apply leads_trans with (run_retry 8 e gerr (m_s m)); [apply run_retry_leads; split; assumption|apply settle_leads].
+  - apply leads_trans with (run_retry_get 8 gerr (m_s m)); [apply run_retry_get_leads|apply settle_leads].
+  - destruct W as [W1 W2]. simpl in W1, W2. destruct (s_retry (m_s m)); cbn [fst m_s]; try apply leads_refl.
+    apply leads_trans with (run_retry 8 e false (m_s m)); [apply run_retry_leads; split; assumption|apply settle_leads].
+  - eapply leads_trans; [apply (leads_step (m_s m) (LInvoke (m_tid m) (OCompact r))); exact I|].
+    eapply leads_trans; [apply run_thread_leads; constructor|apply settle_leads].
   - apply leads_refl.
   - apply settle_leads.
 Qed.
@@ -304,4 +307,215 @@ Proof.
     + destruct (commit _ _ e). left. reflexivity.
     + destruct (is_cas er); left; reflexivity.
   - left. reflexivity.
+Qed.
+
+(* over a run *)
+Lemma run_facts q ls : Forall wf_label ls -> forall s, reach q s ->
+  s_committed s <= s_committed (run s ls) /\
+  (forall R k, R <= s_committed s -> snap (run s ls) R k = snap s R k) /\
+  exists newer, s_events (run s ls) = newer ++ s_events s /\ forall ev, In ev newer -> s_committed s < e_rev ev.
+Proof.
+  induction 1 as [|l ls W _ IH]; intros s R.
+  - change (run s []) with s. split; [lia|]. split; [reflexivity|]. exists []. split; [reflexivity|intros ev []].
+  - pose proof (reach_inv1 q s R) as I1. pose proof (reach_inv2 q s R) as I2.
+    pose proof (step_committed_mono s l I1) as Hm.
+    destruct (IH (step s l) (reach_step q s l R W)) as [H1 [H2 [newer [H3 H4]]]].
+    change (run s (l :: ls)) with (run (step s l) ls).
+    split; [lia|]. split.
+    + intros R0 k HR. rewrite H2 by lia. apply step_snap; assumption.
+    + destruct (step_events s l I1) as [E|[ev [E Hev]]].
+      * exists newer. rewrite H3, E. split; [reflexivity|]. intros ev Hin. specialize (H4 ev Hin). lia.
+      * exists (newer ++ [ev]). rewrite H3, E, <- app_assoc. split; [reflexivity|].
+        intros ev' Hin. apply in_app_or in Hin as [Hin|[<-|[]]]; [specialize (H4 ev' Hin); lia|exact Hev].
+Qed.
+
+(* ---------- lists and event streams as the oracle sees them ---------- *)
+Lemma lookup_snap_list s R k : In k keys4 -> lookup_kv k (snap_list s R) = snap s R k.
+Proof.
+  unfold snap_list, keys4. cbn [flat_map].
+  intros [<-|[<-|[<-|[<-|[]]]]];
+    destruct (snap s R 0) as [[? ?]|], (snap s R 1) as [[? ?]|], (snap s R 2) as [[? ?]|], (snap s R 3) as [[? ?]|]; reflexivity.
+Qed.
+
+Definition evf (ev : wevent) : wevent := ev_of_obs (ev_obs ev).
+
+Lemma evf_rev ev : e_rev (evf ev) = e_rev ev. Proof. reflexivity. Qed.
+
+Lemma replay_key_evf k evs cur : replay_key k (map evf evs) cur = replay_key k evs cur.
+Proof. induction evs as [|ev evs IH]; [reflexivity|]. simpl. rewrite IH. reflexivity. Qed.
+
+Lemma events_between_evf h0 h1 evs : events_between h0 h1 (map evf evs) = map evf (events_between h0 h1 evs).
+Proof.
+  unfold events_between, events_after. induction evs as [|ev evs IH]; [reflexivity|]. simpl.
+  destruct (e_rev ev <=? h1); simpl; [destruct (h0 <? e_rev ev); simpl; rewrite IH; reflexivity|exact IH].
+Qed.
+
+Lemma oracle_events E : rev (map ev_of_obs (map ev_obs (rev E))) = map evf E.
+Proof. rewrite map_map, <- map_rev, rev_involutive. reflexivity. Qed.
+
+Lemma filter_le_split h newer old :
+  (forall ev, In ev newer -> h < e_rev ev) -> (forall ev, In ev old -> e_rev ev <= h) ->
+  filter (fun ev => e_rev ev <=? h) (newer ++ old) = old.
+Proof.
+  intros Hn Ho. rewrite filter_app.
+  assert (filter (fun ev => e_rev ev <=? h) newer = []) as ->.
+  { induction newer as [|a l IH]; [reflexivity|]. simpl. assert (h < e_rev a) by (apply Hn; left; reflexivity).
+    apply N.leb_gt in H. rewrite H. apply IH. intros ev Hin. apply Hn. right. exact Hin. }
+  simpl. induction old as [|a l IH]; [reflexivity|]. simpl. assert (e_rev a <= h) by (apply Ho; left; reflexivity).
+  apply N.leb_le in H. rewrite H. f_equal. apply IH. intros ev Hin. apply Ho. right. exact Hin.
+Qed.
+
+Lemma kvo_eqb_refl a : kvo_eqb a a = true.
+Proof. destruct a as [[v r]|]; [|reflexivity]. simpl. rewrite beqb_refl, N.eqb_refl. reflexivity. Qed.
+
+(* ---------- clause (5): convergence at every drained List, from C09_converges ---------- *)
+Lemma lists_agree_sound q s0 s1 sF :
+  reach q s0 -> leads s0 s1 -> quiescent s1 -> leads s1 sF ->
+  lists_agree (map evf (s_events sF)) (s_committed s0, snap_list s0 (s_committed s0)) (s_committed s1) (snap_list s1 (s_committed s1)) = true.
+Proof.
+  intros R0 [ls1 [W1 E1]] Q [lsF [WF EF]]. unfold lists_agree. apply forallb_forall. intros k Hk.
+  assert (R1 : reach q s1) by (subst s1; apply reach_run; assumption).
+  destruct (run_facts q ls1 W1 s0 R0) as [Hc [Hsnap _]]. rewrite <- E1 in Hc, Hsnap.
+  destruct (run_facts q lsF WF s1 R1) as [_ [_ [newer [Hev Hnew]]]]. rewrite <- EF in Hev.
+  rewrite events_between_evf, replay_key_evf, !lookup_snap_list by exact Hk.
+  unfold events_between. rewrite Hev.
+  rewrite (filter_le_split (s_committed s1) newer (s_events s1) Hnew)
+    by (intros ev Hin; apply (a_evs _ (reach_inv3 q s1 R1) ev Hin)).
+  rewrite <- (Hsnap (s_committed s0) k (N.le_refl _)).
+  pose proof (converges_core s1 (reach_inv1 q s1 R1) (reach_inv2 q s1 R1) (reach_inv3 q s1 R1) (reach_invx q s1 R1) Q (s_committed s0) k) as C.
+  unfold converged_at in C. rewrite C. apply kvo_eqb_refl.
+Qed.
+
+(* the oracle's fold over (script, observation) *)
+Definition book0 : book := {| bk_dealt := r0; bk_unres := []; bk_parked := false; bk_ok := true |}.
+Definition cs0 : cstate := {| cs_book := book0; cs_lists := []; cs_probe := None; cs_conv := true; cs_probe_ok := true |}.
+
+Lemma conv_step_book evs a x : cs_book (conv_step evs a x) = book_step (cs_book a) x.
+Proof.
+  destruct x as [d o]. unfold conv_step.
+  repeat match goal with |- context [match ?x with _ => _ end] => destruct x end; reflexivity.
+Qed.
+
+Lemma conv_step_nolist evs a d o : d <> DList ->
+  cs_conv (conv_step evs a (d, o)) = cs_conv a /\ cs_lists (conv_step evs a (d, o)) = cs_lists a.
+Proof.
+  intros N. unfold conv_step. destruct d; try contradiction;
+    repeat match goal with |- context [match ?x with _ => _ end] => destruct x end; auto.
+Qed.
+
+(* Where the oracle regards a List as drained, the model state must be quiescent. This is the one link between the
+   oracle's bookkeeping over observations and the model state that is CHECKED per case (executably) instead of proved
+   for all scripts; see props/C09.json "gaps". *)
+Fixpoint drained_quiescent (m : mstate) (b : book) (ds : list dstep) : bool :=
+  match ds with
+  | [] => true
+  | d :: ds' =>
+      let mo := dstep_run m d in
+      let b' := book_step b (d, snd mo) in
+      match d with DList => implb (drained b' (snd mo)) (quiescentb (m_s (fst mo))) | _ => true end
+      && drained_quiescent (fst mo) b' ds'
+  end.
+
+Lemma dstep_eq_list d : d = DList \/ d <> DList.
+Proof. destruct d; try (right; discriminate). left. reflexivity. Qed.
+
+Definition lists_inv (q : N) (s : state) (L : list (N * list (key * value * N))) : Prop :=
+  forall h0 l0, In (h0, l0) L -> exists s0, reach q s0 /\ leads s0 s /\ h0 = s_committed s0 /\ l0 = snap_list s0 h0.
+
+Lemma conv_fold q ds : forall m a,
+  reach q (m_s m) -> Forall dstep_wf ds -> drained_quiescent m (cs_book a) ds = true ->
+  lists_inv q (m_s m) (cs_lists a) -> cs_conv a = true ->
+  cs_conv (fold_left (conv_step (map evf (s_events (m_s (fst (script_run m ds))))))
+                     (combine ds (snd (script_run m ds))) a) = true.
+Proof.
+  induction ds as [|d ds IH]; intros m a R W DQ LI CA; [exact CA|].
+  inversion W as [|? ? Wd Wds]; subst.
+  pose proof (script_run_leads (d :: ds) m W) as LF.
+  cbn [drained_quiescent] in DQ. apply andb_true_iff in DQ as [DQ1 DQ2].
+  cbn [script_run] in *. pose proof (dstep_run_leads m d Wd) as L1.
+  destruct (dstep_run m d) as [m1 o] eqn:ED. cbn [fst snd] in *.
+  assert (R1 : reach q (m_s m1)) by (apply (leads_reach q _ _ R L1)).
+  pose proof (script_run_leads ds m1 Wds) as L2.
+  specialize (IH m1 (conv_step (map evf (s_events (m_s (fst (script_run m1 ds))))) a (d, o)) R1 Wds).
+  destruct (script_run m1 ds) as [m2 os] eqn:ES. cbn [fst snd combine fold_left] in *.
+  apply IH; clear IH.
+  - rewrite conv_step_book. exact DQ2.
+  - (* the earlier lists *)
+    destruct (dstep_eq_list d) as [->|Nd].
+    + cbn [dstep_run] in ED. injection ED as <- <-. unfold conv_step. cbn [mk_obs o_d].
+      assert (Hadd : lists_inv q (m_s m) ((s_committed (m_s m), snap_list (m_s m) (s_committed (m_s m))) :: cs_lists a)).
+      { intros h0 l0 [H|H]; [injection H as <- <-; exists (m_s m); repeat split; auto; apply leads_refl|apply (LI h0 l0 H)]. }
+      destruct (drained _ _); exact Hadd.
+    + destruct (conv_step_nolist (map evf (s_events (m_s m2))) a d o Nd) as [_ ->].
+      intros h0 l0 H. destruct (LI h0 l0 H) as [s0 [H1 [H2 H3]]]. exists s0. split; [exact H1|]. split; [eapply leads_trans; eassumption|exact H3].
+  - (* convergence so far *)
+    destruct (dstep_eq_list d) as [->|Nd].
+    + cbn [dstep_run] in ED. injection ED as <- <-. unfold conv_step. cbn [mk_obs o_d].
+      set (b' := book_step (cs_book a) _) in *.
+      destruct (drained b' _) eqn:Dr; [|exact CA]. cbn [cs_conv]. rewrite CA. cbn [andb].
+      cbn [implb] in DQ1.
+      apply forallb_forall. intros [h0 l0] Hin. destruct (LI h0 l0 Hin) as [s0 [H1 [H2 [-> ->]]]].
+      apply (lists_agree_sound q s0 (m_s m) (m_s m2) H1 H2 (quiescentb_spec _ DQ1) L2).
+    + destruct (conv_step_nolist (map evf (s_events (m_s m2))) a d o Nd) as [-> _]. exact CA.
+Qed.
+
+(* ---------- the clauses of c09_oracle on a case that passed the check ---------- *)
+Definition c09_valid (c : c09_case) : Prop :=
+  Forall dstep_wf (c_script c) /\ drained_quiescent minit book0 (c_script c) = true.
+
+Lemma minit_reach : reach r0 (m_s minit).
+Proof. apply reach_init. Qed.
+
+(* (1) an unknown outcome is always reported as an RPC error of the unknown-outcome class   [<- C09_error_class] *)
+Theorem oracle_clause_class c :
+  Forall dstep_wf (c_script c) -> c09_check c = true -> forallb class_ok (c_obs c) = true.
+Proof.
+  intros W C. destruct (check_spec c C) as [-> _]. apply (script_class r0); [apply minit_reach|exact W].
+Qed.
+
+(* (4b) delivered events carry strictly increasing revisions   [<- order of the published stream, Inv3] *)
+Theorem oracle_clause_increasing c :
+  Forall dstep_wf (c_script c) -> c09_check c = true ->
+  increasing (map (fun e : evobs => let '(_, _, _, r, _) := e in r) (c_events c)) = true.
+Proof.
+  intros W C. destruct (check_spec c C) as [_ ->]. rewrite evobs_rev_map. apply ev_desc_increasing.
+  apply (a_sorted _ (reach_inv3 r0 _ (leads_reach r0 _ _ minit_reach (script_run_leads (c_script c) minit W)))).
+Qed.
+
+(* (5) at every List taken in a drained state, every earlier List + the delivered events in between give that List
+   [<- C09_converges] *)
+Theorem oracle_clause_converges c :
+  c09_valid c -> c09_check c = true -> cs_conv (conv_of c) = true.
+Proof.
+  intros [W DQ] C. destruct (check_spec c C) as [Eo Ee]. unfold conv_of. rewrite Ee, oracle_events, Eo.
+  apply (conv_fold r0 (c_script c) minit cs0); try assumption; [apply minit_reach|intros ? ? []|reflexivity].
+Qed.
+
+(* executable form of c09_valid *)
+Definition dstep_wfb (d : dstep) : bool :=
+  negb (step_outside d) && match d with DRetry EnvAbort _ | DRetryFinish EnvAbort => false | _ => true end.
+Definition c09_validb (c : c09_case) : bool :=
+  forallb dstep_wfb (c_script c) && drained_quiescent minit book0 (c_script c).
+
+Lemma dstep_wfb_spec d : dstep_wfb d = true -> dstep_wf d.
+Proof.
+  unfold dstep_wfb, dstep_wf. intros H. apply andb_true_iff in H as [H1 H2]. apply negb_true_iff in H1. split; [exact H1|].
+  destruct d; try exact I; destruct e; try discriminate; intros E; discriminate.
+Qed.
+
+Lemma c09_validb_spec c : c09_validb c = true -> c09_valid c.
+Proof.
+  unfold c09_validb, c09_valid. intros H. apply andb_true_iff in H as [H1 H2]. split; [|exact H2].
+  apply Forall_forall. intros d Hd. apply dstep_wfb_spec. rewrite forallb_forall in H1. apply H1. exact Hd.
+Qed.
+
+(* the three clauses together *)
+Theorem oracle_clauses c :
+  c09_valid c -> c09_check c = true ->
+  forallb class_ok (c_obs c) = true /\
+  increasing (map (fun e : evobs => let '(_, _, _, r, _) := e in r) (c_events c)) = true /\
+  cs_conv (conv_of c) = true.
+Proof.
+  intros V C. split; [apply oracle_clause_class; [apply V|exact C]|]. split; [apply oracle_clause_increasing; [apply V|exact C]|].
+  apply oracle_clause_converges; assumption.
 Qed.
